@@ -6,6 +6,7 @@ From OxiVerif Require Import Num.I64 DD.ApplyBcdd DD.FamSpec DD.ZbddOps DD.ZbddB
 From OxiVerif Require Import DD.Quant Mgr.OomBddQ DD.Tdd DD.ApplyTdd Mgr.OomTdd DD.QuantBcdd Mgr.OomBcddQ Mgr.OomZbddV.
 From OxiVerif Require DD.Pick Mgr.OomPick.
 From OxiVerif Require Import DD.IsoCheck.
+From OxiVerif Require Import Mgr.OomOwnZK Mgr.OomOwnZ Mgr.OomOwnC Mgr.OomOwnZTie.
 Extraction Language OCaml.
 Extraction "model.ml" conv_anchor
   Table.sem_edge Table.wf_b TableExtra.wf_full_b Table.rc_exact_b Table.no_dead_b
@@ -27,4 +28,7 @@ Extraction "model.ml" conv_anchor
   OomBcddQ.cq_run_nc OomBcddQ.cqcall_ok_b
   OomZbddV.zv_run_nc OomZbddV.zvcall_ok_b ZbddBool.zconst
   OomPick.pick_dd_nc OomPick.pick_dd_set_nc OomPick.pcall_ok_b
-  IsoCheck.iso_core.
+  IsoCheck.iso_core
+  OomOwnZK.eres_code OomOwnZTie.ownz_inv_b OomOwnZTie.ownc_inv_b OomOwnZTie.ownz_set OomOwnZTie.ownz_not
+  OomOwnZTie.ownz_op OomOwnZTie.ownz_ite OomOwnZTie.ownc_op OomOwnZTie.ownc_ite
+  OomOwnZTie.owne_put OomOwnZTie.owne_snap OomOwnZTie.owne_tokens.
